@@ -15,6 +15,11 @@ open Go Logrange.FieldsKV Logrange.FieldsEmit Logrange.Proofs.FieldsEmit Lograng
 `api/rpc/querier.go`; the model `emitLoop` is the loop with a copying cache) -/
 theorem querier_cache_copies : Logrange.Generated.C08Q.querierCacheCopies = true := by decide
 
+/-- the pipe worker computes the provenance fields in its own run from its own source tag line (`field.Parse(w.srcTags)`,
+regenerated from `pkg/pipe/worker.go`): what a piped event carries is a function of the source's persisted tag line alone
+(`Props.C08.provenance_fields_partial` says which), also for sources whose descriptors were loaded from disk after a restart -/
+theorem worker_provenance_from_src_tags : Logrange.Generated.C08Q.workerProvenanceFromSrcTags = true := by decide
+
 /-- **Every event of a query result carries the text of its OWN fields**, for every sequence of events -/
 theorem querier_emits_own_fields (events : List Bytes) : emit events = events.map asKV := emit_map events
 
